@@ -1121,7 +1121,12 @@ where
     // (see Section 2.2), this section MUST be copied as well."
     match xfr_state {
         XFRState::AXFRInit | XFRState::IXFRInit => {
-            if !msg.is_answer(answer.for_slice()) {
+            // Only subsequent messages may leave out the question. An error
+            // response without any sections is the one exception, see
+            // is_answer.
+            let no_question = answer.header_counts().qdcount() == 0
+                && answer.header().rcode() == Rcode::NOERROR;
+            if no_question || !msg.is_answer(answer.for_slice()) {
                 xfr_state = XFRState::Error;
                 // If we detect an error, then keep the stream open. We are
                 // likely out of sync with respect to the sender.
